@@ -724,3 +724,160 @@ Theorem c19_lu_det_QI (a : mat QIF) n : wf n n a ->
   lu_d QIF Qc (q2_lu_recip a n) = det_lap QIF n a.
 Proof. exact (q_lu_det_all_n a n). Qed.
 Print Assumptions c19_lu_det_QI.
+
+(* ================= session 5, package L, second time box =================
+   run_no_tie a n: at every column any two distinct candidate metrics are separated by the strict test;
+   run_cand_nonzero a n: some candidate of every column is nonzero (true for a nonsingular matrix). *)
+Require Import LV.Lin.LuRowOrderNoTie LV.Lin.LuRowOrderSolvers LV.Lin.LuRowOrderScale LV.Lin.LuRowOrderExamples.
+
+(* the premise of the row-order theorems in the words of the property (OP) *)
+Theorem c19_run_decided_of_no_tie (K : CField) (M : Type) (nrm2 : K -> M) (mulM : M -> M -> M)
+    (ltM : M -> M -> bool) (zeroM : M) (scale_of_max : M -> M) :
+  (forall x, ltM x x = false) ->
+  (forall x y z, ltM x y = true -> ltM y z = true -> ltM x z = true) ->
+  (forall x y z, ltM x z = true -> ltM x y = false -> ltM y z = true) ->
+  (forall x y, ltM zeroM x = true -> ltM zeroM y = true -> ltM zeroM (mulM x y) = true) ->
+  (forall x, mulM x zeroM = zeroM) ->
+  nrm2 c0 = zeroM ->
+  (forall x : K, x <> c0 -> ltM zeroM (nrm2 x) = true) ->
+  (forall x, ltM zeroM x = true -> ltM zeroM (scale_of_max x) = true) ->
+  (forall x : K, x = c0 \/ x <> c0) ->
+  forall (a : mat K) n, wf n n a ->
+  run_no_tie K M nrm2 mulM ltM zeroM scale_of_max a n -> run_cand_nonzero K M nrm2 mulM ltM zeroM scale_of_max a n -> run_decided K M nrm2 mulM ltM zeroM scale_of_max a n.
+Proof. exact (run_decided_of_no_tie K M nrm2 mulM ltM zeroM scale_of_max). Qed.
+Print Assumptions c19_run_decided_of_no_tie.
+
+Theorem c19_run_decided_of_no_tie_nonsingular (K : CField) (M : Type) (nrm2 : K -> M) (mulM : M -> M -> M)
+    (ltM : M -> M -> bool) (zeroM : M) (scale_of_max : M -> M) :
+  (forall x, ltM x x = false) ->
+  (forall x y z, ltM x y = true -> ltM y z = true -> ltM x z = true) ->
+  (forall x y z, ltM x z = true -> ltM x y = false -> ltM y z = true) ->
+  (forall x y, ltM zeroM x = true -> ltM zeroM y = true -> ltM zeroM (mulM x y) = true) ->
+  (forall x, mulM x zeroM = zeroM) ->
+  nrm2 c0 = zeroM ->
+  (forall x : K, x <> c0 -> ltM zeroM (nrm2 x) = true) ->
+  (forall x, ltM zeroM x = true -> ltM zeroM (scale_of_max x) = true) ->
+  (forall x : K, x = c0 \/ x <> c0) ->
+  forall (a : mat K) n, wf n n a ->
+  run_no_tie K M nrm2 mulM ltM zeroM scale_of_max a n -> det_lap K n a <> c0 -> run_decided K M nrm2 mulM ltM zeroM scale_of_max a n.
+Proof. exact (run_decided_of_no_tie_nonsingular K M nrm2 mulM ltM zeroM scale_of_max). Qed.
+Print Assumptions c19_run_decided_of_no_tie_nonsingular.
+
+(* row-order independence stated with "no two candidate pivot metrics tie at any step" and det A <> 0:
+   same original pivot rows, same U and L multipliers, identical mldivide result *)
+Theorem c19_row_order_independent_no_tie (K : CField) (M : Type) (nrm2 : K -> M) (mulM : M -> M -> M)
+    (ltM : M -> M -> bool) (zeroM : M) (scale_of_max : M -> M) :
+  (forall x, ltM x x = false) ->
+  (forall x y z, ltM x y = true -> ltM y z = true -> ltM x z = true) ->
+  (forall x y z, ltM x z = true -> ltM x y = false -> ltM y z = true) ->
+  (forall x y, ltM zeroM x = true -> ltM zeroM y = true -> ltM zeroM (mulM x y) = true) ->
+  (forall x, mulM x zeroM = zeroM) ->
+  nrm2 c0 = zeroM ->
+  (forall x : K, x <> c0 -> ltM zeroM (nrm2 x) = true) ->
+  (forall x, ltM zeroM x = true -> ltM zeroM (scale_of_max x) = true) ->
+  (forall x : K, x = c0 \/ x <> c0) ->
+  forall n (sg ts : nat -> nat),
+  (forall i, i < n -> sg i < n) -> (forall i, i < n -> ts i < n) ->
+  (forall i, i < n -> ts (sg i) = i) -> (forall i, i < n -> sg (ts i) = i) ->
+  forall (a a' : mat K), wf n n a -> wf n n a' ->
+  (forall i c, i < n -> c < n -> mget K a' i c = mget K a (sg i) c) ->
+  run_no_tie K M nrm2 mulM ltM zeroM scale_of_max a n -> det_lap K n a <> c0 ->
+  map sg (lu_pivots K M (lu K M nrm2 mulM ltM zeroM scale_of_max a' n)) = lu_pivots K M (lu K M nrm2 mulM ltM zeroM scale_of_max a n) /\
+  (forall i c, i < n -> c < n ->
+     mget K (lu_a K M (lu K M nrm2 mulM ltM zeroM scale_of_max a' n)) i c = mget K (lu_a K M (lu K M nrm2 mulM ltM zeroM scale_of_max a n)) i c) /\
+  (forall m (b b' : mat K), (forall i k, i < n -> k < m -> mget K b' i k = mget K b (sg i) k) ->
+     fst (mldivide K M nrm2 mulM ltM zeroM scale_of_max a' b' n m) = fst (mldivide K M nrm2 mulM ltM zeroM scale_of_max a b n m)).
+Proof. exact (row_order_independent_no_tie K M nrm2 mulM ltM zeroM scale_of_max). Qed.
+Print Assumptions c19_row_order_independent_no_tie.
+
+(* minverse / mrdivide as coded on the row-permuted matrix: the same entries, columns permuted
+   ((P A)^-1 = A^-1 P^-1,  b / (P A) = (b / A) P^-1), each computed by the same operations *)
+Theorem c19_minverse_row_order_independent (K : CField) (M : Type) (nrm2 : K -> M) (mulM : M -> M -> M)
+    (ltM : M -> M -> bool) (zeroM : M) (scale_of_max : M -> M) :
+  (forall x, ltM x x = false) ->
+  (forall x y z, ltM x y = true -> ltM y z = true -> ltM x z = true) ->
+  forall n (sg ts : nat -> nat),
+  (forall i, i < n -> sg i < n) -> (forall i, i < n -> ts i < n) ->
+  (forall i, i < n -> ts (sg i) = i) -> (forall i, i < n -> sg (ts i) = i) ->
+  forall (a a' : mat K), wf n n a -> wf n n a' ->
+  (forall i c, i < n -> c < n -> mget K a' i c = mget K a (sg i) c) ->
+  run_decided K M nrm2 mulM ltM zeroM scale_of_max a n ->
+  forall i j, i < n -> j < n ->
+    mget K (fst (minverse K M nrm2 mulM ltM zeroM scale_of_max a' n)) i j = mget K (fst (minverse K M nrm2 mulM ltM zeroM scale_of_max a n)) i (sg j).
+Proof. exact (minverse_row_order_independent K M nrm2 mulM ltM zeroM scale_of_max). Qed.
+Print Assumptions c19_minverse_row_order_independent.
+
+Theorem c19_mrdivide_row_order_independent (K : CField) (M : Type) (nrm2 : K -> M) (mulM : M -> M -> M)
+    (ltM : M -> M -> bool) (zeroM : M) (scale_of_max : M -> M) :
+  (forall x, ltM x x = false) ->
+  (forall x y z, ltM x y = true -> ltM y z = true -> ltM x z = true) ->
+  forall n (sg ts : nat -> nat),
+  (forall i, i < n -> sg i < n) -> (forall i, i < n -> ts i < n) ->
+  (forall i, i < n -> ts (sg i) = i) -> (forall i, i < n -> sg (ts i) = i) ->
+  forall (a a' : mat K), wf n n a -> wf n n a' ->
+  (forall i c, i < n -> c < n -> mget K a' i c = mget K a (sg i) c) ->
+  run_decided K M nrm2 mulM ltM zeroM scale_of_max a n ->
+  forall m (b : mat K) i c, i < m -> c < n ->
+    mget K (fst (mrdivide K M nrm2 mulM ltM zeroM scale_of_max b a' m n)) i c = mget K (fst (mrdivide K M nrm2 mulM ltM zeroM scale_of_max b a m n)) i (sg c).
+Proof. exact (mrdivide_row_order_independent K M nrm2 mulM ltM zeroM scale_of_max). Qed.
+Print Assumptions c19_mrdivide_row_order_independent.
+
+(* row SCALING at the solution level, every n (reciprocal row scale invM): scaling row i of (A, b) by d_i <> 0
+   leaves the pivot rows and row_index unchanged and mldivide returns the same entries (exact arithmetic) *)
+Theorem c19_mldivide_row_scale_invariant (K : CField) (M : Type) (nrm2 : K -> M) (mulM : M -> M -> M)
+    (ltM : M -> M -> bool) (zeroM : M) :
+  (forall x, mulM x zeroM = zeroM) ->
+  (forall x : K, x <> c0 -> ltM zeroM (nrm2 x) = true) ->
+  forall (oneM : M) (invM : M -> M),
+  (forall x y, mulM x y = mulM y x) ->
+  (forall x y z, mulM x (mulM y z) = mulM (mulM x y) z) ->
+  (forall x, mulM oneM x = x) ->
+  (forall x, ltM zeroM x = true -> mulM (invM x) x = oneM) ->
+  (forall x y, invM (mulM x y) = mulM (invM x) (invM y)) ->
+  (forall d x y, ltM zeroM d = true -> ltM (mulM d x) (mulM d y) = ltM x y) ->
+  (forall x y : K, nrm2 (cmul x y) = mulM (nrm2 x) (nrm2 y)) ->
+  forall n m (d : nat -> K) (a b : mat K),
+  wf n n a -> wf n m b -> (forall i, i < n -> d i <> c0) ->
+  (forall j, j < n -> mget K (lu_a K M (lu K M nrm2 mulM ltM zeroM invM a n)) j j <> c0) ->
+  lu_pivots K M (lu K M nrm2 mulM ltM zeroM invM (scale_rows K d a n) n) = lu_pivots K M (lu K M nrm2 mulM ltM zeroM invM a n) /\
+  lu_ri K M (lu K M nrm2 mulM ltM zeroM invM (scale_rows K d a n) n) = lu_ri K M (lu K M nrm2 mulM ltM zeroM invM a n) /\
+  (forall j, j < n -> mget K (lu_a K M (lu K M nrm2 mulM ltM zeroM invM (scale_rows K d a n) n)) j j <> c0) /\
+  forall i k, i < n -> k < m ->
+    mget K (fst (mldivide K M nrm2 mulM ltM zeroM invM (scale_rows K d a n) (scale_rows_nm K d b n m) n m)) i k =
+    mget K (fst (mldivide K M nrm2 mulM ltM zeroM invM a b n m)) i k.
+Proof. exact (mldivide_row_scale_invariant K M nrm2 mulM ltM zeroM). Qed.
+Print Assumptions c19_mldivide_row_scale_invariant.
+
+(* ---- least squares through the Householder model AS CODED (session 5, package L, second time box):
+   (d) is no longer partial.  DivideQrLs.reflect_all_Tf: the list loop qr_reflect_all computes H_(n-1)...H_0 b;
+   back_spec / back_solves_R: qr_back solves R x = c; hence the X returned by the model of _vnacommon_qrsolve
+   satisfies the normal equations, the rank returned is n and nothing non-finite is reported.  Every m >= n,
+   full column rank; sqrt and cexp(I carg) abstract with the per-run laws (run_laws), field laws qr_field_laws. *)
+Require Import LV.Lin.DivideQrLs LV.Lin.DivideQrLsQI.
+
+Theorem c19_qrsolve_normal_equations (K : CField) (nrm phase : K -> K) (isz : K -> bool) :
+  qr_field_laws K isz -> forall m n o (A B : mat K), wf m n A -> n <= m ->
+  run_laws K nrm phase isz m n A n -> ker_trivial K m n A ->
+  exists X B',
+    qrsolve K nrm phase isz m n o A B = (Some X, B', n) /\
+    forall k j, k < o -> j < n ->
+      sumf n (fun t => cmul (sumf m (fun i => cmul (cj (mget K A i j)) (mget K A i t))) (mget K X t k)) =
+      sumf m (fun i => cmul (cj (mget K A i j)) (mget K B i k)).
+Proof. exact (qrsolve_normal_equations K nrm phase isz). Qed.
+Print Assumptions c19_qrsolve_normal_equations.
+
+(* at Q[i], joined to the specification-level theorems: the matrix the QR model returns satisfies
+   LsProofs.normal_eq and is a minimiser of |A X - B|_F^2 (premises: full column rank and the computed check
+   of the sqrt / phase oracle on this run; non-vacuity: DivideQrLsQI.ex_qrsolve_minimises) *)
+Theorem c19_qrsolve_normal_eq_QI m n o (a b : mat QIF) : wf m n a -> n <= m ->
+  qq_run_lawsb m n a = true -> full_col_rank m n a ->
+  exists X B', qq_qrsolve m n o a b = (Some X, B', n) /\ normal_eq m n o a b X.
+Proof. exact (qq_qrsolve_normal_eq m n o a b). Qed.
+Print Assumptions c19_qrsolve_normal_eq_QI.
+
+Theorem c19_qrsolve_minimises_QI m n o (a b : mat QIF) : wf m n a -> n <= m ->
+  qq_run_lawsb m n a = true -> full_col_rank m n a ->
+  exists X B', qq_qrsolve m n o a b = (Some X, B', n) /\
+    forall y : mat QIF, (res2 m n o a X b <= res2 m n o a y b)%Qc.
+Proof. exact (qq_qrsolve_minimises m n o a b). Qed.
+Print Assumptions c19_qrsolve_minimises_QI.
